@@ -77,8 +77,8 @@ Theorem wtiny_indep h1 s1 h2 s2 ls os :
     hw_run h1 s1 os = HOk (h1', s1', outs) /\ hw_run h2 s2 os = HOk (h2', s2', outs).
 Proof.
   intros HR1 HR2 Hinv.
-  destruct (wtiny_run_refines os _ _ _ HR1 Hinv) as (h1' & s1' & l1 & o1 & E1 & L1 & _).
-  destruct (wtiny_run_refines os _ _ _ HR2 Hinv) as (h2' & s2' & l2 & o2 & E2 & L2 & _).
+  destruct (wtiny_run_refines [] os _ _ _ HR1 Hinv) as (h1' & s1' & l1 & o1 & E1 & L1 & _).
+  destruct (wtiny_run_refines [] os _ _ _ HR2 Hinv) as (h2' & s2' & l2 & o2 & E2 & L2 & _).
   rewrite L1 in L2. inversion L2; subst. exists h1', s1', h2', s2', o2. auto.
 Qed.
 
